@@ -362,32 +362,44 @@ def isTextCls : SCls → Bool
   | .navigable | .stylesheet | .script | .template | .rubyText | .rubyParen => true
   | _ => false
 
-/-- a string node under a parent `inCdata` (= the re-parser reads the parent's content raw: script/style) -/
-def okStr (inCdata : Bool) (c : SCls) (s : PStr) : Bool :=
+/-- a string node outside script/style -/
+def okStr (c : SCls) (s : PStr) : Bool :=
   match c with
   | .preformatted => false                                  -- emitted raw without markup of its own
-  | .comment => !inCdata && !hasSub [45, 45] s && s.getLast? != some 45 && s.head? != some 62
+  | .comment => !hasSub [45, 45] s && s.getLast? != some 45 && s.head? != some 62
                   && !(([45, 62] : PStr).isPrefixOf s)      -- no `--`, no trailing `-`, not `>…`/`->…`
-  | .cdata => !inCdata && !s.contains 93 && !s.contains 62  -- no `]`, no `>`
-  | .pi | .xmlpi | .declaration | .doctype => !inCdata && !s.contains 62
-  | _ => !s.isEmpty && (!inCdata || !hasSub [60, 47] s)     -- text: non-empty; raw text has no `</`
+  | .cdata => !s.contains 93 && !s.contains 62              -- no `]`, no `>`
+  | .pi | .xmlpi | .declaration | .doctype => !s.contains 62
+  | _ => !s.isEmpty                                         -- text: non-empty
+
+/-- a child of script/style: a non-empty string of a text class -/
+def isTextNode : Node → Bool
+  | .str c s => isTextCls c && !s.isEmpty
+  | .tag _ _ => false
+
+/-- what is written between `<script>` and `</script>` -/
+def rawText : List Node → PStr
+  | [] => []
+  | .str _ s :: ns => s ++ rawText ns
+  | .tag _ _ :: ns => rawText ns
+
+/-- the content of an element the re-parser reads raw (script/style): text only, and no `</` in what is written -/
+def rawKidsOK (kids : List Node) : Bool := kids.all isTextNode && !hasSub [60, 47] (rawText kids)
 
 mutual
 /-- explicit, decidable: the trees whose rendering the tokenizer reads back as `emitR` -/
-def representable (p : PCfg) (f : Fmt) (inCdata : Bool) : Node → Bool
-  | .str c s => okStr inCdata c s
+def representable (p : PCfg) (f : Fmt) : Node → Bool
+  | .str c s => okStr c s
   | .tag i kids =>
-    let nm := fullName i
-    !inCdata                                                 -- no element inside script/style
-    && !i.hidden
-    && okTagName nm
-    && (!p.voidTags.contains nm || kids.isEmpty)             -- a void element has no children
-    && (f.cdataTags.contains i.name == p.cdataElems.contains nm)  -- writer and reader agree on raw content
+    !i.hidden
+    && okTagName (fullName i)
+    && (!p.voidTags.contains (fullName i) || kids.isEmpty)                    -- a void element has no children
+    && (f.cdataTags.contains i.name == p.cdataElems.contains (fullName i))    -- writer and reader agree on raw content
     && keysNodup (i.attrs.map (·.1)) && i.attrs.all (fun kv => okAttrName kv.1)
-    && representableL p f (p.cdataElems.contains nm) kids
-def representableL (p : PCfg) (f : Fmt) (inCdata : Bool) : List Node → Bool
+    && (if p.cdataElems.contains (fullName i) then rawKidsOK kids else representableL p f kids)
+def representableL (p : PCfg) (f : Fmt) : List Node → Bool
   | [] => true
-  | n :: ns => representable p f inCdata n && representableL p f inCdata ns
+  | n :: ns => representable p f n && representableL p f ns
 end
 
 /-! ### `DoctypeStable`: the forests on which a second round trip changes nothing -/
